@@ -69,8 +69,8 @@ impl Check for C18 {
     }
     fn budget(&self, tier: Tier) -> Budget {
         match tier {
-            Tier::Quick => Budget { wall_secs: 30, max_cases: 20_000, checkpoint_every: 64, workers: 16 },
-            Tier::Thorough => Budget { wall_secs: 300, max_cases: 2_000_000, checkpoint_every: 64, workers: 16 },
+            Tier::Quick => Budget { wall_secs: 40, max_cases: 400_000, checkpoint_every: 64, workers: 16 },
+            Tier::Thorough => Budget { wall_secs: 600, max_cases: 30_000_000, checkpoint_every: 64, workers: 16 },
         }
     }
     fn generate(&self, seed: u64, idx: u64, _tier: Tier) -> Value {
